@@ -18,7 +18,8 @@ open PRV.Model PRV.Spec.C19
 structure JobInfo where
   jobId   : String
   tmpl    : String       -- which block template (input of the proof-of-work oracle)
-  diff    : Nat          -- difficulty in force when announced (uint64 of the pool's number)
+  diff    : Nat          -- difficulty in force when announced, in units of 2^-16
+  diffTxt : String       -- the same, as the JSON number the pool sent
   xn1     : String
   xn2size : Nat
 deriving Repr, DecidableEq
@@ -28,7 +29,8 @@ structure Dest where
   pool      : String
   conn      : Nat            -- which connection to that pool (1 = first)
   user      : String         -- user name authorised on this connection
-  diff      : Nat            -- current difficulty (uint64)
+  diff      : Nat            -- current difficulty, in units of 2^-16
+  diffTxt   : String
   xn1       : String
   xn2size   : Nat
   mask      : String         -- version mask ("" = version rolling never negotiated)
@@ -52,7 +54,7 @@ structure PoolCfg where
   en1     : String
   en2size : Nat
   diffTxt : String     -- the JSON number it announces
-  diff    : Nat        -- its uint64 truncation
+  diff    : Nat        -- the same in units of 2^-16
   verdict : PoolVerdict
   conns   : Nat := 0   -- connections accepted so far
   jobN    : Nat := 0
@@ -151,38 +153,52 @@ def fallback (pow : Pow) (jobId : String) (share : List Nat) (shareName : String
       | _ => let rr := fallback pow jobId share shareName now rest; (r.1 :: rr.1, rr.2)
     else let rr := fallback pow jobId share shareName now rest; (d :: rr.1, rr.2)
 
+/-- Where the share goes: first the active destination, then (job unknown there, or too low a
+difficulty — a colliding job id) every cached destination.  Only validator state changes. -/
+def route (pow : Pow) (s : Sess) (a : Dest) (jobId : String) (share : List Nat) (shareName : String) :
+    Sess × Bool × (String × String) × Reply :=
+  let r := validate pow a jobId share shareName s.now
+  let s1 := setDest' s r.1
+  let first := r.2.1
+  -- more than one other cached destination knows the job id: the outcome depends on map order
+  let others := (s1.dests.filter fun d => d.key ≠ a.key ∧ d.v.hasJob jobId)
+  if first = .ok then (s1, true, a.key, first)
+  else if first = .jobNotFound ∨ first = .lowDiff then
+    let fb := fallback pow jobId share shareName s1.now s1.dests
+    let s1' := { s1 with dests := fb.1, ambiguous := s1.ambiguous || decide (others.length > 1) }
+    match fb.2 with
+    | some k => (s1', true, k, first)
+    | none => (s1', false, a.key, first)
+  else (s1, false, a.key, first)
+
+/-- the difficulty an accepted share is credited with: the one captured with the job it solves -/
+def creditOf (s : Sess) (target : String × String) (jobId : String) : Nat :=
+  match findDest s target with
+  | some d => (match (d.v.jobs.get jobId) with
+      | some job => ((d.jobs[job.serial]?).map (·.diff)).getD d.diff
+      | none => d.diff)
+  | none => 0
+
+/-- book-keeping of the verdict -/
+def book (s2 : Sess) (a : Dest) (accepted : Bool) (target : String × String) (first : Reply) (jobId : String) :
+    SubmitRes :=
+  if accepted then
+    let credit := creditOf s2 target jobId
+    { s := { s2 with srcAcc := s2.srcAcc + 1, minerWork := s2.minerWork + credit,
+                     minerShares := s2.minerShares + 1, workerWork := s2.workerWork + credit },
+      accepted := true, reply := .ok, fwd := some target, credit := credit,
+      cbFired := if target = a.key then s2.cb else none }
+  else
+    { s := { s2 with srcRej := s2.srcRej + 1 }, accepted := false, reply := first, fwd := some target,
+      credit := 0, cbFired := none }
+
 /-- `onMiningSubmit`, synchronous part -/
 def submitSync (pow : Pow) (s : Sess) (jobId : String) (share : List Nat) (shareName : String) : Option SubmitRes :=
   match activeDest s with
   | none => none
   | some a =>
-    let r := validate pow a jobId share shareName s.now
-    let s1 := setDest' s r.1
-    let first := r.2.1
-    -- more than one other cached destination knows the job id: the outcome depends on map order
-    let others := (s1.dests.filter fun d => d.key ≠ a.key ∧ d.v.hasJob jobId)
-    let (s2, accepted, target) :=
-      if first = .ok then (s1, true, a.key)
-      else if first = .jobNotFound ∨ first = .lowDiff then
-        let fb := fallback pow jobId share shareName s1.now s1.dests
-        let s1' := { s1 with dests := fb.1, ambiguous := s1.ambiguous || decide (others.length > 1) }
-        match fb.2 with
-        | some k => (s1', true, k)
-        | none => (s1', false, a.key)
-      else (s1, false, a.key)
-    if accepted then
-      let credit := match findDest s2 target with
-        | some d => (match (d.v.jobs.get jobId) with
-            | some job => ((d.jobs[job.serial]?).map (·.diff)).getD d.diff
-            | none => d.diff)
-        | none => 0
-      let fire := if target = a.key then s2.cb else none
-      some { s := { s2 with srcAcc := s2.srcAcc + 1, minerWork := s2.minerWork + credit,
-                            minerShares := s2.minerShares + 1, workerWork := s2.workerWork + credit },
-             accepted := true, reply := .ok, fwd := some target, credit := credit, cbFired := fire }
-    else
-      some { s := { s2 with srcRej := s2.srcRej + 1 }, accepted := false, reply := first, fwd := some target,
-             credit := 0, cbFired := none }
+    let r := route pow s a jobId share shareName
+    some (book r.1 a r.2.1 r.2.2.1 r.2.2.2 jobId)
 
 /-- the pool's answer to a forwarded share updates the verdict counters -/
 def poolAnswer (s : Sess) (target : String × String) (accepted : Bool) (poolRejects : Bool) : Sess :=
@@ -223,7 +239,7 @@ def onNotify (s : Sess) (pool jobId tmpl : String) (clean : Bool) : Sess × List
   match lastConnOf s pool with
   | none => (s, [])
   | some d =>
-    let job : JobInfo := { jobId := jobId, tmpl := tmpl, diff := d.diff, xn1 := d.xn1, xn2size := d.xn2size }
+    let job : JobInfo := { jobId := jobId, tmpl := tmpl, diff := d.diff, diffTxt := d.diffTxt, xn1 := d.xn1, xn2size := d.xn2size }
     let d' := { d with v := d.v.addNewJob jobId clean s.now, jobs := d.jobs ++ [job], lastRead := s.now }
     let out := if isActive s d then [Out.toMiner s!"notify job={jobId} clean={clean} ntime=64c25820"] else []
     (setDest' s d', out)
@@ -233,7 +249,7 @@ def onDiff (s : Sess) (pool : String) (diffTxt : String) (diff : Nat) : Sess × 
   | none => (s, [])
   | some d =>
     let out := if isActive s d then [Out.toMiner s!"set_difficulty [{diffTxt}]"] else []
-    (setDest' s { d with diff := diff, lastRead := s.now }, out)
+    (setDest' s { d with diff := diff, diffTxt := diffTxt, lastRead := s.now }, out)
 
 def onExtranonce (s : Sess) (pool xn1 : String) (size : Nat) : Sess × List Out :=
   match lastConnOf s pool with
@@ -251,7 +267,8 @@ def onMask (s : Sess) (pool mask : String) : Sess × List Out :=
 
 /-! ### destination switch -/
 
-/-- the four messages a switch sends to the miner, from the new destination's latest job -/
+/-- the messages a switch sends to the miner: mask, then the latest job with the extranonce and
+difficulty captured with it, then whatever the pool changed since that job -/
 def resend (d : Dest) : Option (List Out) :=
   match d.v.getLatestJob with
   | none => none
@@ -259,10 +276,12 @@ def resend (d : Dest) : Option (List Out) :=
     match d.jobs[n]? with
     | none => none
     | some j =>
-      some [ .toMiner s!"set_version_mask [\"{d.mask}\"]",
+      some ([ .toMiner s!"set_version_mask [\"{d.mask}\"]",
              .toMiner s!"set_extranonce [\"{j.xn1}\",{j.xn2size}]",
-             .toMiner s!"set_difficulty [{j.diff}]",
+             .toMiner s!"set_difficulty [{j.diffTxt}]",
              .toMiner s!"notify job={j.jobId} clean=true ntime=64c25820" ]
+        ++ (if d.xn1 ≠ j.xn1 ∨ d.xn2size ≠ j.xn2size then [.toMiner s!"set_extranonce [\"{d.xn1}\",{d.xn2size}]"] else [])
+        ++ (if d.diff ≠ j.diff then [.toMiner s!"set_difficulty [{d.diffTxt}]"] else []))
 
 def idleCloseAt (s : Sess) (d : Dest) : Int := (min d.lastRead d.lastWrite) + s.idle
 
@@ -277,55 +296,69 @@ def oldest (s : Sess) : Option Dest × Bool :=
         if idleCloseAt s x < idleCloseAt s a then (some x, false)
         else if idleCloseAt s x = idleCloseAt s a then (some a, true) else acc) (some d, false)
 
-/-- `setDest(P, cb)` -/
-def switchTo (s : Sess) (pool : String) (hasCb : Bool) : Sess × List Out :=
-  let (cb, cbN) := if hasCb then (some (s.cbN + 1), s.cbN + 1) else (none, s.cbN)
-  let user := "acct" ++ pool ++ ".w" ++ pool
+/-- take the destination from the cache, or connect and shake hands (nothing reaches the miner) -/
+def acquire (s : Sess) (pool : String) (p : PoolCfg) (user : String) : Sess × Dest × List Out :=
   let key := (pool, user)
+  match findDest s key with
+  | some d =>
+    -- stopping the parked connection's autoread runs its callback, which deletes the entry
+    -- from the map; it is stored again at the end of the switch
+    ({ s with dests := s.dests.filter (·.key ≠ key) }, { d with lastRead := s.now, lastWrite := s.now }, [])
+  | none =>
+    let conn := p.conns + 1
+    let job := pool ++ "-j" ++ toString (p.jobN + 1)
+    let d : Dest := {
+      pool := pool, conn := conn, user := user, diff := p.diff, diffTxt := p.diffTxt, xn1 := p.en1, xn2size := p.en2size,
+      mask := if s.vr then p.mask else "",
+      v := (Validator.new 30 s.cleanTimeout).addNewJob job true s.now,
+      jobs := [{ jobId := job, tmpl := "t0", diff := p.diff, diffTxt := p.diffTxt, xn1 := p.en1, xn2size := p.en2size }],
+      lastRead := s.now, lastWrite := s.now }
+    let hs : List Out :=
+      [Out.factory pool (some conn)] ++
+      (if s.vr then [Out.toPool pool conn s!"configure id=1 mask=1fffe000 minbits=2 contract={user}"] else []) ++
+      [Out.toPool pool conn "subscribe id=2",
+       Out.toPool pool conn s!"authorize id=3 user={user} pwd=pwd{pool}"]
+    (setPool s { p with conns := conn, jobN := p.jobN + 1 }, d, hs)
+
+/-- `if destMap.Len() >= maxCachedDests { closeOldestConn() }` -/
+def evict (s1 : Sess) (key : String × String) : Sess × List Out :=
+  if s1.dests.length ≥ s1.maxCached then
+    match oldest s1 with
+    | (some o, tie) =>
+      ({ s1 with dests := s1.dests.filter (·.key ≠ o.key),
+                 ambiguous := s1.ambiguous || tie || decide (o.key = key) },
+       [Out.toPool o.pool o.conn "closed"])
+    | (none, _) => (s1, [])
+  else (s1, [])
+
+/-- the new destination becomes the active one and the task callback is replaced -/
+def install (s2 : Sess) (nd : Dest) (cb : Option Nat) (cbN : Nat) : Sess :=
+  let dests' := if (s2.dests.any (·.key = nd.key)) then s2.dests.map (fun x => if x.key = nd.key then nd else x)
+                else s2.dests ++ [nd]
+  { s2 with dests := dests', active := some nd.key, cb := cb, cbN := cbN }
+
+/-- `setDest(P, cb)` with the callback to install -/
+def switchWith (s : Sess) (pool : String) (cb : Option Nat) (cbN : Nat) : Sess × List Out :=
+  let user := "acct" ++ pool ++ ".w" ++ pool
   let ret := Out.session "setdest-ret nil"
-  if s.active = some key then
+  if s.active = some (pool, user) then
     ({ s with cb := cb, cbN := cbN }, [ret])
   else
     match findPool s pool with
-    | none => (s, [])
+    | none =>
+      -- unreachable destination: the factory fails, nothing changes (the miner stays where it is,
+      -- the installed callback stays)
+      ({ s with cbN := cbN }, [Out.factory pool none, Out.session "setdest-ret connect-dest"])
     | some p =>
-      -- reuse from the cache or connect and shake hands
-      let (s1, nd, outs1) : Sess × Dest × List Out := match findDest s key with
-        | some d =>
-          -- stopping the parked connection's autoread runs its callback, which deletes the entry
-          -- from the map; it is stored again at the end of the switch
-          ({ s with dests := s.dests.filter (·.key ≠ key) }, { d with lastRead := s.now, lastWrite := s.now }, [])
-        | none =>
-          let conn := p.conns + 1
-          let job := pool ++ "-j" ++ toString (p.jobN + 1)
-          let d : Dest := {
-            pool := pool, conn := conn, user := user, diff := p.diff, xn1 := p.en1, xn2size := p.en2size,
-            mask := if s.vr then p.mask else "",
-            v := (Validator.new 30 s.cleanTimeout).addNewJob job true s.now,
-            jobs := [{ jobId := job, tmpl := "t0", diff := p.diff, xn1 := p.en1, xn2size := p.en2size }],
-            lastRead := s.now, lastWrite := s.now }
-          let hs : List Out :=
-            [Out.factory pool (some conn)] ++
-            (if s.vr then [Out.toPool pool conn s!"configure id=1 mask=1fffe000 minbits=2 contract={user}"] else []) ++
-            [Out.toPool pool conn "subscribe id=2",
-             Out.toPool pool conn s!"authorize id=3 user={user} pwd=pwd{pool}"]
-          (setPool s { p with conns := conn, jobN := p.jobN + 1 }, d, hs)
-      match resend nd with
-      | none => (s1, outs1 ++ [Out.session "setdest-ret change-dest"])
+      let a := acquire s pool p user
+      match resend a.2.1 with
+      | none => ({ a.1 with cbN := cbN }, a.2.2 ++ [Out.session "setdest-ret change-dest"])
       | some msgs =>
-        -- the new destination joins the map after the size check
-        let (s2, closedOuts) :=
-          if s1.dests.length ≥ s1.maxCached then
-            match oldest s1 with
-            | (some o, tie) =>
-              ({ s1 with dests := s1.dests.filter (·.key ≠ o.key),
-                         ambiguous := s1.ambiguous || tie || decide (o.key = key) },
-               [Out.toPool o.pool o.conn "closed"])
-            | (none, _) => (s1, [])
-          else (s1, [])
-        let dests' := if (s2.dests.any (·.key = key)) then s2.dests.map (fun x => if x.key = key then nd else x)
-                      else s2.dests ++ [nd]
-        ({ s2 with dests := dests', active := some key, cb := cb, cbN := cbN },
-         outs1 ++ [ret] ++ msgs ++ closedOuts)
+        let e := evict a.1 (pool, user)
+        (install e.1 a.2.1 cb cbN, a.2.2 ++ [ret] ++ msgs ++ e.2)
+
+/-- `setDest(P, cb)`: callbacks are numbered in the order they are handed in -/
+def switchTo (s : Sess) (pool : String) (hasCb : Bool) : Sess × List Out :=
+  switchWith s pool (if hasCb then some (s.cbN + 1) else none) (if hasCb then s.cbN + 1 else s.cbN)
 
 end PRV.Model.Session
